@@ -15,7 +15,8 @@ from ..lib import lograce
 IMPORTS = ["Base", "Config", "Limiter", "Cond", "Template"]
 EXPRS_OK = ["a", "b", "s", "p.name", "d['k']", "len(s)", "a + b", "s.upper()", "lst[0]", "p", "d", "None", "a*2", "G", "(a,b)",
             " a", " p.name ", "\tlen(s)", "  a + b",
-            "big", "rows"]                                    # values whose text is longer than any collection limit (1024)          # blanks around a field's expression are legal (eval skips leading blanks)
+            "big", "rows",                                    # values whose text is longer than any collection limit (1024)
+            "mixed", "odd"]                                   # sets whose members cannot be ordered          # blanks around a field's expression are legal (eval skips leading blanks)
 EXPRS_BAD = ["missing", "1/0", "d['nope']", "s.nope", "boom()", "lst[9]", "a +", "exit_()"]
 LITS = ["", "x", "hello ", " = ", "é ü", "100%", "[", "] ", "a.b", "\n", "日本", "$"]
 
@@ -58,6 +59,7 @@ def frame_state(rng):
         raise SystemExit("bye")
     loc = {"a": rng.choice([1, 5, -2]), "b": rng.choice([2, 10]), "s": rng.choice(["txt", "", "Zz"]), "p": P(),
            "d": {"k": rng.choice([1, "v", [1, 2]])}, "lst": [rng.choice([7, "q"]), 2], "boom": boom, "exit_": exit_,
+           "mixed": {1, "a"}, "odd": frozenset([None, 2]),
            "big": "select " + "c%d, " * 1 + "x" * rng.choice([1100, 1500]) + " from t;", "rows": list(range(rng.choice([300, 420])))}
     glb = {"__name__": "hostmod", "G": rng.choice([42, "gg"])}
     return loc, glb
@@ -156,11 +158,22 @@ def run(ctx):
             action = LocationAction("tp-log", None, conf, LocationAction.ActionType.Snapshot)
         else:
             action = LocationAction("tp-log", None, {"fire_count": "-1", "fire_period": "0", "log_msg": tpl}, LocationAction.ActionType.Log)
-        world.install([Trigger(LineLocation("m.py", 7, Location.Position.START), [action])])
+        # a third of the hits carry a SECOND log tracepoint on the same line (before or after this one): each tracepoint's message
+        # is logged once, whatever else is installed on the line
+        second = rng.choice([None, None, "before", "after"])
+        acts = [action]
+        if second:
+            other = LocationAction("tp-other", None, {"fire_count": "-1", "fire_period": "0", "log_msg": "other {a}"}, LocationAction.ActionType.Log)
+            acts = [other, action] if second == "before" else [action, other]
+        world.install([Trigger(LineLocation("m.py", 7, Location.Position.START), acts)])
         start = len(world.log)
         _, exc = world.event(e2.mk_frame("/app/m.py", "g", 7, loc, f_globals=glb), "line")
-        logs = [p for w, _tp, _id, p in world.log[start:] if w == "log"]
+        logs = [p for w, _tp, _id, p in world.log[start:] if w == "log" and p["tp_id"] != "tp-other"]
+        others = [p for w, _tp, _id, p in world.log[start:] if w == "log" and p["tp_id"] == "tp-other"]
         snaps = [p for w, _tp, _id, p in world.log[start:] if w == "snapshot"]
+        if second and exc is None and len(others) != 1:
+            ctx.fail("a second log tracepoint on the line (%s this one) logged %d messages for the one hit" % (second, len(others)),
+                     dict(template=tpl, second=second), tag="log-count-second")
         # independent expectation
         try:
             parsed = list(string.Formatter().parse(tpl))
